@@ -45,6 +45,15 @@ GeomOf(cls) ==
       [] cls = "Polyline"        -> [dim |-> <<>>, verts |-> <<<<0, 0, 0>>, <<1, 0, 0>>, <<1, 2, 0>>, <<1, 2, -1>>>>]
       [] OTHER                   -> [dim |-> <<>>, verts |-> <<>>]
 
+\* the moment of the Dipole (a vector of the object's frame) varies with the scenario: along +-z (the direction the arrow model is built
+\* in, and its reverse), along other axes, in a face diagonal and generic
+Moments == <<<<0, 0, 1>>, <<0, 0, -1>>, <<1, 0, 0>>, <<0, -2, 0>>, <<1, -1, 0>>, <<-1, 2, 2>>, <<0, 0, -2>>>>
+PathIdx(p) == CASE p = "static" -> 0 [] p = "path3" -> 1 [] p = "path4" -> 2 [] OTHER -> 3
+SelIdx(s) == CASE s = "default" -> 0 [] s = "zero" -> 1 [] s = "every1" -> 2 [] s = "every2" -> 3 [] s = "every3" -> 4 [] s = "neg2" -> 5
+               [] s = "list02" -> 6 [] s = "list1_9" -> 7 [] s = "listneg" -> 8 [] OTHER -> 9
+UnitIdx(u) == CASE u = "auto" -> 0 [] u = "m" -> 0 [] u = "cm" -> 1 [] u = "mm" -> 2 [] u = "um" -> 3 [] OTHER -> 4
+GeomOfS(s) == IF s.cls = "Dipole" THEN [dim |-> <<>>, verts |-> <<Moments[((3 * PathIdx(s.path) + SelIdx(s.sel) + UnitIdx(s.unit)) % Len(Moments)) + 1]>>]
+              ELSE GeomOf(s.cls)
 Scenario(c, p, s, u, b, h, d) == [cls |-> c, path |-> p, sel |-> s, unit |-> u, backend |-> b, how |-> h, decor |-> d]
 \* the full product is pruned to what distinguishes behaviour: the unit is a global factor (varied on one path and
 \* selector per class), the backend, the place where the selector is given and the decorations likewise.
@@ -57,14 +66,14 @@ Scenarios ==
                                                    b \in Backends, h \in Hows, d \in Decors}
 
 \* prediction: for every displayed index the placed corners / anchor (what Show.tla lets the validator demand)
-Predict(s) == LET poses == PathOf(s.path) D == Disp(SelOf(s.sel), Len(poses)) g == GeomOf(s.cls) IN
+Predict(s) == LET poses == PathOf(s.path) D == Disp(SelOf(s.sel), Len(poses)) g == GeomOfS(s) IN
     [disp |-> D,
      pts |-> IF s.cls \in ExactClasses \cup {"Polyline"} THEN UNION {{Place(poses[m], c) : c \in Corners(s.cls, g)} : m \in D}
              ELSE {VScale(Q, poses[m].p) : m \in D}]
 
 Init == /\ sc \in Scenarios
         /\ phase = "new"
-        /\ objstate = [geom |-> GeomOf(sc.cls), path |-> PathOf(sc.path), sel |-> SelOf(sc.sel)]
+        /\ objstate = [geom |-> GeomOfS(sc), path |-> PathOf(sc.path), sel |-> SelOf(sc.sel)]
         /\ defaults = "defaults0"
         /\ drawn = [disp |-> {}, pts |-> {}]
 ShowStep == /\ phase = "new"
